@@ -137,6 +137,41 @@ fn case(rep: &mut Report, seed: u64, index: u64) {
             }
         }
     }
+    // several blobs in ONE stream (a caller's own container format): each from_reader call must take exactly its blob
+    if !a.is_empty() && index % 3 == 0 {
+        let b2map = gen_map(&mut r, index + 1);
+        let mut stream = bytes.clone();
+        let mut b2 = vec![];
+        if b2map.to_writer(&mut b2).is_ok() && !b2.is_empty() {
+            stream.extend_from_slice(&b2);
+            stream.extend_from_slice(b"TRAILER!");
+            rep.count("streams.two-blobs-and-trailer");
+            let res = catch(|| -> Result<(J, J, Vec<u8>), String> {
+                let mut cur = std::io::Cursor::new(&stream[..]);
+                let x = Attributes::from_reader(&mut cur).map_err(|e| format!("first blob: {}", e))?;
+                let y = Attributes::from_reader(&mut cur).map_err(|e| format!("second blob: {}", e))?;
+                let mut rest = vec![];
+                std::io::Read::read_to_end(&mut cur, &mut rest).map_err(|e| e.to_string())?;
+                Ok((canon::attributes(&x, &no), canon::attributes(&y, &no), rest))
+            });
+            let exp2 = canon::attributes(&norm_attrs(&b2map), &no);
+            match res {
+                Ok(Ok((x, y, rest))) => {
+                    if x != exp || y != exp2 || rest != b"TRAILER!" {
+                        let what = if x != exp { "the first map" } else if y != exp2 { "the second map" } else { "the caller's data after the blobs" };
+                        rep.violation(
+                            "C14:stream-of-blobs",
+                            &format!("two blobs and a trailer in one stream: {} came back wrong ({} trailer bytes left of 8)", what, rest.len()),
+                            replay.clone(),
+                            J::Null,
+                        );
+                    }
+                }
+                Ok(Err(e)) => rep.violation("C14:stream-of-blobs:error", &format!("two blobs in one stream: {}", e), replay.clone(), J::Null),
+                Err(p) => rep.violation(&format!("C14:read:{}", panic_sig(&p)), &format!("from_reader panicked on a stream of blobs: {}", p.msg), replay.clone(), J::Null),
+            }
+        }
+    }
     if a.is_empty() != bytes.is_empty() {
         rep.violation("C14:empty", &format!("empty map <-> zero bytes broken: {} entries, {} bytes", a.len(), bytes.len()), replay.clone(), J::Null);
     }
